@@ -145,6 +145,8 @@ class Spec:
         types = self.prog.types
         if name in types:
             return name
+        if name.startswith('*'):
+            return self.ptr_to(self.resolve_type(ex, name[1:], pkg))
         for p in ([pkg] if pkg else []) + [IR.PKG, IR.XPKG]:
             if p and (p + '.' + name) in types:
                 return p + '.' + name
@@ -301,6 +303,8 @@ class Spec:
         if k == 'assert':
             a = self.eval(ex, e[1], env, st, old)
             t = self.resolve_type(ex, e[2])
+            if isinstance(a.t, str) and ex.ts.rep(a.t)[0] == 'addr':
+                return V(t, a.x)      # named interface represented by the address of its implementation
             return ex.ts.unbox(t, a.x)
         if k == 'call':
             return self.eval_call(ex, e[1], e[2], env, st, old)
@@ -360,11 +364,17 @@ class Spec:
             for i, (fn, ft) in enumerate(r[1]):
                 if fn == name:
                     return ex.load(st, ft, a.x.ext(i))
-            # embedded structs
+            # embedded structs (by value or by pointer)
             for i, (fn, ft) in enumerate(r[1]):
                 fr = ex.ts.rep(ft)
                 if fr[0] == 'struct' and any(n2 == name for n2, _ in fr[1]):
                     return self.field(ex, V(self.ptr_to(ft), a.x.ext(i)), name, st)
+                if fr[0] == 'addr':
+                    ptt = self.prog.under(ft)[1]
+                    if ptt['kind'] == 'pointer' and self.prog.kind(ptt['elem']) == 'struct':
+                        er = ex.ts.rep(ptt['elem'])
+                        if any(n2 == name for n2, _ in er[1]):
+                            return self.field(ex, ex.load(st, ft, a.x.ext(i)), name, st)
             raise EngineError('no field %s in %s' % (name, et))
         if rep[0] == 'struct':
             for i, (fn, ft) in enumerate(rep[1]):
@@ -591,6 +601,59 @@ class Spec:
                 return V(f.t, z3.Select(st.ghost[names[1]], ii))
             j = ev(args[2]).x
             return ex.ts.unpack(pts[j], z3.Select(st.ghost[names[2 + j]], ii))
+        if fn == 'nspawn':
+            return V('int', st.ghost.setdefault('$nspawn', z3.Const('g0_nspawn', BV64)))
+        if fn == 'spawnedbefore':
+            # every goroutine was started before object x was allocated (so it cannot reference x)
+            x = ev(args[0])
+            if not (isinstance(x.x, PAddr) and x.x.cid is not None):
+                return V('bool', z3.BoolVal(False))
+            ok = all(t[4] < -x.x.cid for t in st.trace if t[0] == 'go')
+            return V('bool', z3.BoolVal(ok))
+        if fn == 'spawnfn':
+            # name of the function started by the i-th go statement is args[1] (string literal)
+            i = ev(args[0]).x
+            gos = [t for t in st.trace if t[0] == 'go']
+            want = args[1][1]
+            okv = i < len(gos) and isinstance(gos[i][1].x, Clo) and gos[i][1].x.fn.endswith(want)
+            return V('bool', z3.BoolVal(bool(okv)))
+        if fn == 'finalizer':
+            # finalizer(obj, "fname"): SetFinalizer(obj, fname) was called
+            x = ev(args[0])
+            want = args[1][1]
+            okv = any(t[0] == 'finalizer' and ex.term(t[1]).eq(ex.ts.box(V(x.t, x.x))) if False else
+                      (t[0] == 'finalizer' and t[3] == want and t[4].eq(ex.term(x))) for t in st.trace)
+            return V('bool', z3.BoolVal(bool(okv)))
+        if fn == 'closed':
+            ch = ev(args[0])
+            goals = [t[1] == ex.term(ch) for t in st.trace if t[0] == 'close']
+            return V('bool', z3.Or(*goals) if goals else z3.BoolVal(False))
+        if fn == 'itercalls':
+            want = args[0][1]
+            mark = getattr(st, 'loop_mark', 0)
+            return LIT(len([t for t in st.trace[mark:] if t[0] == 'call' and self.prog.short(t[1]).endswith(want)]))
+        if fn == 'iterselect':
+            mark = getattr(st, 'loop_mark', 0)
+            sels = [t for t in st.trace[mark:] if t[0] == 'select']
+            if len(sels) != 1:
+                raise EngineError('iterselect: %d select statements in this iteration' % len(sels))
+            return V('int', sels[0][1])
+        if fn == 'selectchan':
+            # selectchan(i): channel of case i of the iteration's select statement
+            mark = getattr(st, 'loop_mark', 0)
+            sels = [t for t in st.trace[mark:] if t[0] == 'select']
+            i = ev(args[0]).x
+            return V('$addr', PAddr(base=sels[0][2][i], lo=-10**9))
+        if fn == 'tickerchan':
+            # the channel of the ticker created by this function with the given period
+            d = ev(args[0])
+            tk = [t for t in st.trace if t[0] == 'ticker']
+            if len(tk) != 1:
+                return V('bool', z3.BoolVal(False))
+            return V('bool', z3.And(tk[0][1] == d.x, z3.BoolVal(True)))
+        if fn == 'ncall':
+            want = args[0][1]
+            return LIT(len([t for t in st.trace if t[0] == 'call' and self.prog.short(t[1]).endswith(want)]))
         if fn == 'wfslice':
             x = ev(args[0])
             b, ln, cp = x.x
@@ -635,7 +698,11 @@ class Spec:
             out = []
             st2 = st.copy()
             n0 = len(ex.obls)
-            ex.run_fn(target, vals, st2, lambda s, r: out.append((s, r)))
+            ex.pure_depth = getattr(ex, 'pure_depth', 0) + 1
+            try:
+                ex.run_fn(target, vals, st2, lambda s, r: out.append((s, r)))
+            finally:
+                ex.pure_depth -= 1
             del ex.obls[n0:]
             if not out:
                 raise EngineError('pure call %s produced no result' % fn)
@@ -734,7 +801,7 @@ class Spec:
             if i == len(clauses):
                 if not havocked:
                     self.havoc_all(ex, con, env2, st2, old)
-                    self.callee_reenters(ex, con, st2, site)
+                    self.callee_reenters(ex, con, st2, site, env2)
                 return finish(st2)
             c = clauses[i]
             if c.kind == 'modifies':
@@ -750,7 +817,7 @@ class Spec:
             if c.kind == 'ensures':
                 if not havocked:
                     self.havoc_all(ex, con, env2, st2, old)
-                    self.callee_reenters(ex, con, st2, site)
+                    self.callee_reenters(ex, con, st2, site, env2)
                     havocked = True
                 g = self.eval_bool(ex, c.expr, env2, st2, old)
                 st2.pc.append(g)
@@ -759,9 +826,15 @@ class Spec:
 
         step(0, st, env, False)
 
-    def callee_reenters(self, ex, con, st, site):
+    def callee_reenters(self, ex, con, st, site, env=None):
         if not con.of('reenters'):
             return
+        recv = None
+        f2 = self.prog.funcs.get(con.fn)
+        if env is not None and f2 and f2.get('hasrecv') and f2['params']:
+            rp = f2['params'][0]
+            if rp['n'] in env:
+                recv = (env[rp['n']][1], rp['t'])
         pure = ex.fresh('cbpure', BoolS)
         locked = getattr(st, 'locked', 0)
         ex.oblige(st, 'C13/%s/callback.unlocked@%s' % (ex.short_fn(), site), z3.BoolVal(locked == 0), tags=['C13', 'C06'],
@@ -769,7 +842,7 @@ class Spec:
         st.trace.append(('cb', None, [], [], site, pure, locked))
         if getattr(ex, 'dry', 0):
             return
-        self.reentrant_havoc(ex, st, pure)
+        self.reentrant_havoc(ex, st, pure, recv=recv)
 
     def is_shared_call(self, name):
         return name.startswith('(*' + IR.XPKG + '.Map') and '$' not in name
@@ -849,6 +922,14 @@ class Spec:
             # mem(lvalue): the memory of a Go lvalue (all leaves)
             p, t = self.lvalue(ex, e[2][0], env, old)
             ex.store(st, p, ex.fresh_val(t, 'hv', st))
+            return
+        if e[0] == 'id' and e[1] == 'allghost':
+            for g in list(st.ghost.keys()):
+                if g.startswith('$now'):
+                    continue
+                st.ghost[g] = ex.fresh('gC_' + mangle(g), st.ghost[g].sort())
+            st.ghost.setdefault('$nspawn', z3.Const('g0_nspawn', BV64))
+            st.ghost['$nspawn'] = ex.fresh('gC_nspawn', BV64)
             return
         if e[0] == 'id' and e[1] == 'allmem':
             ex.collapse_mem(st)
@@ -1227,18 +1308,21 @@ class Spec:
                     return 'pure'
         return 'reentrant'
 
-    def reentrant_havoc(self, ex, st, pure):
+    def reentrant_havoc(self, ex, st, pure, recv=None):
         """A re-entrant callback may call any exported method of the container (C13).  Its possible effect on the
         state is therefore the union of the frames (`modifies`) of those methods -- each of which is itself checked
         (FRAME obligations).  Unless the callback was pure (ghost flag `pure`)."""
         con = ex.cur_contract
         f = self.prog.funcs.get(con.fn) if con is not None else None
-        if f is None or not f.get('hasrecv') or not f['params']:
+        if recv is not None:
+            rv, rtype = recv
+        elif f is None or not f.get('hasrecv') or not f['params']:
             return self.full_havoc(ex, st, pure)
-        # a closure of a method: use the parent's receiver
-        recv = f['params'][0]
-        rv = ex.cur_env[recv['n']][1]
-        rtype = recv['t']
+        else:
+            # the container is the receiver of the method under proof
+            rp = f['params'][0]
+            rv = ex.cur_env[rp['n']][1]
+            rtype = rp['t']
         items = []
         for tgt, c2 in self.sf.contracts.items():
             if c2.fn is None:
